@@ -217,4 +217,82 @@ example :
     let t : Tick := ⟨true, false, false, false, .data [0], .blocking, .blocking, .blocking, .raised⟩
     (tick s t).2 = .raised := by decide
 
+/-! ### the idle reaper cannot take pending output away -/
+
+/-- **not reaped while output is pending.**  In every state with a non-empty
+client buffer, for every clock reading and every timeout (zero and negative
+included), `is_inactive()` is false, so `Threadless._cleanup_inactive` does not
+close the connection: pending output can leave only through flushes
+(`C07_only_shrinks`, `C07_delivered`), never through the reaper's
+`shutdown()` (which sends nothing, `C07_threaded`). -/
+theorem C07_not_reaped_while_pending (s : St) (h : s.client.hasBuffer = true)
+    (elapsed timeout : Int) : isInactive s elapsed timeout = false := by
+  simp [isInactive, h]
+
+/-- the reaper closes exactly the drained connections idle past the timeout -/
+theorem C07_reaped_iff (s : St) (elapsed timeout : Int) :
+    isInactive s elapsed timeout = true ↔ s.client.buffer = [] ∧ elapsed > timeout := by
+  simp [isInactive, Conn.hasBuffer]
+
+example : isInactive (st0 .local 0 [] [] false false) 11 10 = true ∧
+    isInactive (st0 .local 0 [[1]] [] true false) 1000000 (-5) = false := by decide
+
+/-- **a connection is closed only when drained** — runs with reaper events at
+arbitrary moments, clock readings and timeouts interleaved with arbitrary
+ticks: if the run ends with the connection closed by the proxy (teardown or
+reaper) while client output is still pending, then it ended by a teardown in a
+tick whose client `send` failed; in particular a run that ends `reaped` has an
+empty client buffer. -/
+theorem C07_closed_only_when_drained (evs : List Ev) (s : St)
+    (hend : (runEv s evs).2 = .teardown ∨ (runEv s evs).2 = .reaped)
+    (hb : (runEv s evs).1.client.hasBuffer = true) :
+    (runEv s evs).2 = .teardown ∧ ∃ s0 t, Ev.tick t ∈ evs ∧ ClientSendFailed s0 t := by
+  induction evs generalizing s with
+  | nil => simp [runEv] at hend
+  | cons e es ih =>
+    cases e with
+    | tick t =>
+      unfold runEv at hend hb ⊢
+      rcases hst : step s t with ⟨s1, r⟩
+      rw [hst] at hend hb
+      cases r with
+      | cont =>
+        simp only at hend hb
+        obtain ⟨a, s0, t0, m, f⟩ := ih s1 hend hb
+        exact ⟨a, s0, t0, by simp [m], f⟩
+      | teardown =>
+        simp only at hb
+        refine ⟨rfl, s, t, by simp, ?_⟩
+        apply step_no_early_close s t
+        · rw [hst]
+        · rw [hst]; exact hb
+      | raised => simp at hend
+    | reap el to =>
+      unfold runEv at hend hb ⊢
+      split at hend
+      · rename_i hi
+        rw [if_pos hi] at hb
+        simp only at hb
+        rw [C07_not_reaped_while_pending s hb] at hi
+        simp at hi
+      · rename_i hi
+        rw [if_neg hi] at hb ⊢
+        obtain ⟨a, s0, t0, m, f⟩ := ih s hend hb
+        exact ⟨a, s0, t0, by simp [m], f⟩
+
+/-- the hypotheses are satisfiable: the reaper passes over a pending final flush
+whatever the clock says, a broken pipe then ends the run with output pending -/
+example :
+    let s := st0 .local 0 [[1, 2, 3]] [] true false
+    let evs : List Ev := [.reap 1000000 0, .reap 5 (-1),
+      .tick ⟨false, true, false, false, .blocking, .blocking, .brokenPipe, .blocking, .raised⟩]
+    (runEv s evs).2 = .teardown ∧ (runEv s evs).1.client.hasBuffer = true := by decide
+
+/-- and a drained idle connection is reaped -/
+example :
+    let s := st0 .tunnel 0 [[1, 2, 3]] [] false false
+    let evs : List Ev := [.reap 99 10,
+      .tick ⟨false, true, false, false, .blocking, .blocking, .sent 9, .blocking, .raised⟩, .reap 10 10, .reap 11 10]
+    (runEv s evs).2 = .reaped ∧ (runEv s evs).1.sentC = [1, 2, 3] := by decide
+
 end Px.Relay
